@@ -262,45 +262,8 @@ def run(fx, tier):
                 'connection loss codes %s are reconnect-worthy (missing: %s)' % (
                     sorted(RECONNECT_WORTHY), sorted(RECONNECT_WORTHY - sets[cls])),
                 key='C02:R-DOM:%s::should_reconnect:set' % cls)
-    for cls, tag in (('read_op', 'on_read'), ('write_op', 'on_write')):
-        for f in fx.functions(cls=cls, name='operator()', tag=tag):
-            v.saw(f)
-            ok = False
-            for p in op_paths(fx, f):
-                sr = None
-                for c in p.conds():
-                    if contains(p.origin(c, c.x), lambda n: is_call(n, 'should_reconnect')):
-                        sr = (c.pol == 'T')
-                if sr is True:
-                    ok = bool(p.calls('async_reconnect')) and p.end()[0] == 'continue' and p.end()[2] == 'on_reconnect'
-            v.check(ok, 'R-DOM', '%s::operator()(%s)%s [%s]' % (cls, tag, f.inst()[:40], f.tu),
-                    'a reconnect-worthy transport error starts async_reconnect and resumes at on_reconnect',
-                    key='C02:R-DOM:%s:reconnect-trigger' % cls, where=f.file)
-    # a stream operation cancelled because its stream was REPLACED (reconnect finished while it was pending) on a client
-    # that is still open is not a cancellation of the caller's request: both siblings go through async_reconnect (which
-    # answers try_again); completing with operation_aborted there ends un-cancelled requests and nothing re-sends them
-    for cls, tag in (('read_op', 'on_read'), ('write_op', 'on_write')):
-        for f in fx.functions(cls=cls, name='operator()', tag=tag):
-            n_open = 0
-            bad = None
-            for pi, p in enumerate(op_paths(fx, f)):
-                opened = None
-                for c in p.conds():
-                    o = p.origin(c, c.x)
-                    if contains(o, lambda n: is_call(n, 'is_open')):
-                        cm = p.cmp(c)
-                        opened = (cm[0] == '!=') if cm else None
-                if opened is not True:
-                    continue
-                n_open += 1
-                for comp in p.entered('complete'):
-                    if ec_arg_class(p, p.arg(comp, 0)) == ('literal', 'operation_aborted'):
-                        bad = 'path %d completes with operation_aborted although the client is open' % pi
-            if n_open == 0:
-                raise AnalysisBroken('%s::(%s): no path on which the client is known to be open' % (cls, tag))
-            v.check(bad is None, 'R-DOM', '%s::operator()(%s)%s:open-client-never-aborted [%s]' % (cls, tag, f.inst()[:30], f.tu),
-                    'with the client open the continuation reports success, reconnects, or reports no_recovery - never operation_aborted%s' % (
-                        '' if bad is None else ' — NOT: ' + bad), key='C02:R-DOM:%s:open-client-never-aborted' % cls, where=f.file)
+    stream_loss_rules(fx, v, 'C02')
+    shutdown_outcome_rule(fx, v, 'C02')
     # an unacknowledged exchange is never ended by anybody but its acknowledgement, a re-send or cancel()
     from c04 import waiter_completion_rules
     v.rule('R-OWN', 'who may complete a parked reply handler, and with what')
@@ -328,6 +291,103 @@ def run(fx, tier):
         'handling on the continuation graph of the request operations, reuse of the stored packet, and the fixed shape '
         'of the reconnect → update_session_state → resend → resend_unanswered/try_again chain, including sibling '
         'agreement of the two reconnect-worthy error sets. Liveness (eventual completion) is not decided.')
+
+
+def stream_loss_rules(fx, v, prop='C02', rid='R-DOM'):
+    """shared with C07 (the quota is reset and the unacknowledged packets are re-sent only by async_sender::resend(), which
+    stands back while a write is in flight and relies on that write being answered try_again)"""
+    for cls, tag in (('read_op', 'on_read'), ('write_op', 'on_write')):
+        for f in fx.functions(cls=cls, name='operator()', tag=tag):
+            v.saw(f)
+            ok = False
+            for p in op_paths(fx, f):
+                sr = None
+                for c in p.conds():
+                    if contains(p.origin(c, c.x), lambda n: is_call(n, 'should_reconnect')):
+                        sr = (c.pol == 'T')
+                if sr is True:
+                    ok = bool(p.calls('async_reconnect')) and p.end()[0] == 'continue' and p.end()[2] == 'on_reconnect'
+            v.check(ok, rid, '%s::operator()(%s)%s [%s]' % (cls, tag, f.inst()[:40], f.tu),
+                    'a reconnect-worthy transport error starts async_reconnect and resumes at on_reconnect',
+                    key=prop + ':R-DOM:%s:reconnect-trigger' % cls, where=f.file)
+    # a stream operation cancelled because its stream was REPLACED (reconnect finished while it was pending) on a client
+    # that is still open is not a cancellation of the caller's request: both siblings go through async_reconnect (which
+    # answers try_again); completing with operation_aborted there ends un-cancelled requests and nothing re-sends them
+    for cls, tag in (('read_op', 'on_read'), ('write_op', 'on_write')):
+        for f in fx.functions(cls=cls, name='operator()', tag=tag):
+            n_open = 0
+            bad = None
+            for pi, p in enumerate(op_paths(fx, f)):
+                opened = None
+                for c in p.conds():
+                    o = p.origin(c, c.x)
+                    if contains(o, lambda n: is_call(n, 'is_open')):
+                        cm = p.cmp(c)
+                        opened = (cm[0] == '!=') if cm else None
+                if opened is not True:
+                    continue
+                n_open += 1
+                for comp in p.entered('complete'):
+                    if ec_arg_class(p, p.arg(comp, 0)) == ('literal', 'operation_aborted'):
+                        bad = 'path %d completes with operation_aborted although the client is open' % pi
+            if n_open == 0:
+                raise AnalysisBroken('%s::(%s): no path on which the client is known to be open' % (cls, tag))
+            v.check(bad is None, rid, '%s::operator()(%s)%s:open-client-never-aborted [%s]' % (cls, tag, f.inst()[:30], f.tu),
+                    'with the client open the continuation reports success, reconnects, or reports no_recovery - never operation_aborted%s' % (
+                        '' if bad is None else ' — NOT: ' + bad), key=prop + ':R-DOM:%s:open-client-never-aborted' % cls, where=f.file)
+
+
+def shutdown_outcome_rule(fx, v, prop='C02', rid='R-DOM'):
+    """closing a connection the client itself gave up on (Server DISCONNECT, malformed packet, silent broker) goes through
+    shutdown_op; read_message_op and sentry_op take ANY error from it as "the client was cancelled" and stop for good.  So on
+    an open client shutdown_op reports success whatever the closing handshake did (error, 5 s timer first); the only error
+    it may report is operation_aborted, and only when the client is closed or the wait for the connection lock was aborted.
+    Shared with C19 ("followed by normal recovery")."""
+    n = 0
+    for f in fx.functions(cls='shutdown_op', name='operator()'):
+        if f.tag not in ('on_locked', 'on_shutdown'):
+            continue
+        v.saw(f)
+        bad = None
+        n_comp = 0
+        for pi, p in enumerate(op_paths(fx, f)):
+            opened, lock_aborted = None, None
+            for c in p.conds():
+                o = p.origin(c, c.x)
+                cm = p.cmp(c)
+                if contains(o, lambda m: is_call(m, 'is_open')):
+                    opened = (cm[0] == '!=') if cm else None
+            if p.ec_is('operation_aborted') is True:
+                lock_aborted = True
+            for comp in p.entered('complete'):
+                n_comp += 1
+                cls_ = ec_arg_class(p, p.arg(comp, 1))
+                if cls_[0] == 'local':
+                    # a local `error_code x {};` that is only handed to the completion is the success value
+                    uses, empty = 0, False
+                    for b_, i_, l_, x_ in f.elements():
+                        for m_ in Expr.walk(x_):
+                            if m_.get('k') == 'ref' and m_.get('dk') == 'local' and m_.get('n') == cls_[1]:
+                                uses += 1
+                        if x_.get('k') == 'decls':
+                            for d_ in x_['ds']:
+                                init_ = f.resolve(d_.get('init')) if d_.get('init') is not None else None
+                                if d_.get('n') == cls_[1] and (init_ is None or (isinstance(init_, dict) and init_.get('k') in ('ctor', 'init') and not init_.get('args'))):
+                                    empty = True
+                    if uses == 1 and empty:
+                        cls_ = ('success',)
+                if cls_[0] == 'success':
+                    continue
+                if cls_ == ('literal', 'operation_aborted') and (opened is False or lock_aborted):
+                    continue
+                bad = 'path %d completes with %s (client open: %s)' % (pi, cls_, opened)
+        n += 1
+        v.check(bad is None and n_comp > 0, rid, 'shutdown_op::operator()(%s)%s:outcome [%s]' % (f.tag, f.inst()[:30], f.tu),
+                'on an open client the shutdown reports success (its callers stop reading for good on any error); '
+                'operation_aborted only for a closed client / aborted lock wait%s' % ('' if bad is None else ' — NOT: ' + bad),
+                key=prop + ':R-DOM:shutdown_op:%s:outcome' % f.tag, where=f.file)
+    if n == 0 and not v.violations:
+        raise AnalysisBroken('shutdown_op continuations not found')
 
 
 def raw_io_rule(fx, v, prop='C02', rid='R-VALUES'):
